@@ -521,7 +521,7 @@ func (pc *precCase) judge(c *core.Ctx, i int, entry, gen string, o outcome) {
 				why = fmt.Sprintf("names an object for a %d-byte measurement", len(m))
 			}
 			c.Violate(core.Violation{Kind: "oracle", Entry: entry, Site: site, Gen: gen, Case: i,
-				Detail: fmt.Sprintf("getter asked for %q which %s; call returned err=%v out=%.80q; permitted=%v event-log-model=%s", u, why, o.err, o.out, keysOf(allowed), state),
+				Detail:  fmt.Sprintf("getter asked for %q which %s; call returned err=%v out=%.80q; permitted=%v event-log-model=%s", u, why, o.err, o.out, keysOf(allowed), state),
 				Witness: map[string]any{"case": pc.describe(), "quote_head_hex": lowerHex(head(pc.quote, 64)), "quote_len": len(pc.quote), "urls": o.urls}})
 		}
 	}
@@ -629,7 +629,7 @@ func precDecode(idx int) *precCase {
 
 type precStats struct {
 	local, entry, fetched, uriSel, cliRuns int
-	sampled                              map[string]bool
+	sampled                                map[string]bool
 }
 
 // runPrec runs case i (product index idx).
